@@ -74,21 +74,55 @@ def _sub_tokens(K):
     return tok, names
 
 
-def analyse(ctx, prog, fq, K=None, discr=()):
+def _api_graph(prog, fq, K=None):
+    """fq inlined (poll-method slots and constant function-pointer tables expanded); for a composite kind down to the
+    register/unregister API of the other kinds.  Cached on the program object."""
+    cache = prog.__dict__.setdefault('_c07_api', {})
+    key = (fq, K['kind'] if K is not None and K.get('composite') else None)
+    if key not in cache:
+        tok = _sub_tokens(K)[0] if key[1] else {}
+        cache[key] = h07.inline(prog, prog.fn(fq), tables=True, expand_methods=True,
+                                stop=lambda t: t.name in tok and not t.static)
+    return cache[key]
+
+
+def gate_counters(prog, K):
+    """Module-private per-object-kind counters, by role instead of by name: every integer member of a record other than
+    iv_state (whose counters the exit test reads and which are anchored by name), reached through a pointer (not part
+    of a file-scope object, which is process-wide state), that some register / unregister path
+    of the kind changes by a unit step (`c++`, `--c`, `c -= 1`, `was = c; c = was + 1`).  Such a counter gates the
+    registration of sub-objects (`if (!tinfo->wait_count++) iv_signal_register(...)`), so it takes part in the balance
+    exactly like the iv_state counters: unchanged on failure, register == -unregister, value-correlated tests."""
+    out = set()
+    for fq in K['reg'] + K['unreg']:
+        g = _api_graph(prog, fq, K)
+        for e in g.events():
+            if e['ev'] == 'store':
+                k = counter_key(e)
+                if k is not None and k not in COUNTERS[:3] and k[0] not in ('global', 'iv_state', 'token', None) \
+                        and h07.unit_step(g, e) in (1, -1):
+                    r = h07.lvalue_root(e['lhs'])
+                    if r is not None and r.get('vk') in ('global', 'staticlocal'):
+                        continue        # a member of a file-scope object: process-wide, not a per-thread registration count
+                    out.add(k)
+    return sorted(out)
+
+
+def analyse(ctx, prog, fq, K=None, discr=(), extra=()):
     """Inline the API function fq (poll-method slots expanded) and compute the net counter change of
     every return.  -> (inlined graph, [(ret event|None, delta, return class, preds)], covered store
-    locations, counter names)"""
+    locations, counter names).  extra: the kind's own gate counters (gate_counters)."""
     f = prog.fn(fq)
     tok, toknames = _sub_tokens(K) if K is not None and K.get('composite') else ({}, [])
-    g = h07.inline(prog, f, expand_methods=True, stop=lambda t: t.name in tok and not t.static)
-    counters = COUNTERS + [('token', n) for n in toknames]
+    g = _api_graph(prog, fq, K)
+    counters = COUNTERS[:3] + list(extra) + [('token', n) for n in toknames]
 
     def call_delta(e):
         t = tok.get(e.get('callee')) if 'callee' in e else None
         if t is None:
             return None
         d = [0] * len(counters)
-        d[len(COUNTERS) + t[0]] = t[1]
+        d[len(counters) - len(toknames) + t[0]] = t[1]
         return tuple(d)
     res = h07.delta(g, counters, discr=discr, call_delta=call_delta if tok else None)
     covered = _counter_store_locs(g)
@@ -176,7 +210,12 @@ def run(ctx):
     ctx.rule('R-C07g', 'blocks in the kernel only when nothing is due (2): the deadline iv_main hands to the kernel wait is, on every '
                        'path, zero when a task is pending and otherwise the deadline of the soonest timer, both established after '
                        'the last call that may run callbacks; zero only when a task is pending', floor=4)
+    ctx.rule('R-C07h', 'every wake-up makes progress: once a poll method has entered the kernel wait, the loop time cached before the '
+                       'wait is invalidated (or read afresh from the clock) on every path -- error returns such as EINTR included -- '
+                       'before the function that called the poll method returns; otherwise the '
+                       'loop judges its timers and computes the next sleep from the time before the wait and sleeps the whole interval again', floor=3)
     covered = Coverage()
+    ctx.section(wakeup_clock, prog)
     ctx.section(balance, covered)
     ctx.section(auto_unregister, covered)
     ctx.section(check_main, prog, covered)
@@ -209,8 +248,9 @@ def balance(ctx, covered):
         discr = K.get('discr', ())
         succ = set()
         nm = None
+        extra = gate_counters(prog, K)
         for fq in K['reg']:
-            g, rets, cov, nm = analyse(ctx, prog, fq, K, discr)
+            g, rets, cov, nm = analyse(ctx, prog, fq, K, discr, extra)
             _cover(covered, cov)
             fails = {}
             for (e, d, rc, preds) in rets:
@@ -229,7 +269,7 @@ def balance(ctx, covered):
         unreg = set()
         arm_states = {}
         for fq in K['unreg']:
-            g, rets, cov, nm = analyse(ctx, prog, fq, K, discr)
+            g, rets, cov, nm = analyse(ctx, prog, fq, K, discr, extra)
             _cover(covered, cov)
             for (e, d, rc, preds) in rets:
                 normal = True
@@ -259,7 +299,7 @@ def balance(ctx, covered):
                    detail='deltas on this arm: %s (expected %s: %s)' % (sorted({_fmt(d, nm) for e, d in lst}), _fmt(want, nm), arm['reason']),
                    fn=K['unreg'][0])
     # kick receiver of a poll method: slot pair event_rx_on / event_rx_off
-    names = [c[1] for c in COUNTERS]
+    names = [c[1] for c in COUNTERS[:3]]
     tables = prog.method_tables()
     for t, slots in sorted(tables.items()):
         on, off = slots.get('event_rx_on'), slots.get('event_rx_off')
@@ -476,7 +516,7 @@ def try_rollback(ctx):
     failure path, a goto-cleanup label or a common helper `register(fd, may_fail)` are all the same thing."""
     prog = ctx.prog
     f = prog.fn('iv_fd_register_try')
-    g = h07.inline(prog, f, expand_methods=False)
+    g = h07.inline(prog, f, tables=True, expand_methods=False)
     REG = ('iv_fd_', 'registered')
     slot = 'unregister_fd'
 
@@ -1135,3 +1175,171 @@ def check_deadline(ctx, prog):
         ctx.ob('R-C07g', 'iv_main:zero-deadline-only-with-pending-task', not bad, loc=loc,
                detail='%s gets the zero deadline (poll without waiting) only on paths that found a task pending: otherwise every '
                       'iteration polls again without anything to dispatch' % what, fn=f.q)
+
+
+# --------------------------------------------------------------------------
+# R-C07h
+# --------------------------------------------------------------------------
+
+def _kernel_waits(prog, t):
+    """The kernel wait of poll-slot function t, by role: the calls of functions that are not part of the library (no body:
+    system calls) that are handed a value computed from t's deadline parameter (its time-value pointer: `abs` itself, a
+    relative time or millisecond count derived from it by whatever helpers, through locals).  -> {(location, callee)}"""
+    dl = [p_['name'] for p_ in t.params if p_.get('ptr') and p_.get('record') == 'timespec']
+    if not dl:
+        raise AnalysisBroken('poll slot %s has no deadline (time-value pointer) parameter' % t.name)
+    g = h07.inline(prog, t, expand_methods=False)
+    tainted = set(dl)
+
+    def dirty(x):
+        return any(isinstance(y, dict) and y.get('k') == 'var' and y.get('vk') in ('local', 'param') and y.get('name') in tainted
+                   for y in h07.walk(x))
+    # locals that may designate the same object: `p = q`, `p = &x`, `p = (T *)q` (helper parameters and results after
+    # inlining); a value written through one of them is read through the others (`timespec_sub(rel, abs, now)`)
+    peers = {}
+    for e in g.events():
+        if e['ev'] == 'store' and e.get('op') == '=' and 'rhs' in e:
+            l, r = h07.strip_cast(e['lhs']), h07.strip_cast(e['rhs'])
+            if isinstance(r, dict) and r.get('k') == 'addr':
+                r = h07.strip_cast(r.get('e'))
+            if all(isinstance(v, dict) and v.get('k') == 'var' and v.get('vk') in ('local', 'param') for v in (l, r)):
+                peers.setdefault(l['name'], set()).add(r['name'])
+                peers.setdefault(r['name'], set()).add(l['name'])
+
+    def base_var(x):
+        """the variable a stored-to location is reached from: `v`, `v.f`, `v[i]`, and also `v->f`, `*v` (the object v points to)"""
+        while isinstance(x, dict):
+            k = x.get('k')
+            if k == 'var':
+                return x
+            x = x.get('base') if k in ('member', 'index') else x.get('e') if k in ('load', 'deref', 'cast', 'paren') else None
+        return None
+
+    def taint(n):
+        work, new = [n], False
+        while work:
+            x = work.pop()
+            if x not in tainted:
+                tainted.add(x)
+                new = True
+                work += list(peers.get(x, ()))
+        return new
+    for n in list(dl):
+        for m in peers.get(n, ()):
+            taint(m)
+    changed = True
+    while changed:
+        changed = False
+        for e in g.events():
+            if e['ev'] == 'store' and 'rhs' in e and dirty(e['rhs']):
+                r = base_var(e['lhs'])
+                if r is not None and r.get('vk') in ('local', 'param') and r['name'] not in tainted:
+                    changed = taint(r['name']) or changed
+    out = set()
+    for e in g.events():
+        if e['ev'] == 'call' and 'callee' in e and any(dirty(a) for a in e.get('args', [])):
+            o = h07.origin(prog, g, e)
+            u = prog.unit_of(o) if o is not None else None
+            tg = prog.resolve(u, e['callee']) if u else prog.funcs.get(e['callee'])
+            if (tg is None or not tg.blocks) and not e.get('noreturn'):
+                out.add((e['loc'], e['callee']))
+    return out
+
+
+def wakeup_clock(ctx, prog):
+    """R-C07h.  In every function from which the poll method's `poll` slot is called (nearest entry point; the slots of
+    every method expanded, helpers inlined): may-analysis of the fact `a kernel wait has been executed and the cached loop
+    time has not been invalidated (a constant other than the `valid` value stored to its validity flag; roles from h04) nor
+    re-read from the clock since`.  The fact
+    must not hold at any return of that function (the loop would take the time from before the wait for the current
+    time).  One instance per poll method; a wait is attributed to the method whose slot function it is inlined from."""
+    from . import h04
+    h04.bind(prog)
+    h04.need('clock')
+    h04.need('flag')
+    tables = prog.method_tables()
+    waits, owner_of = {}, {}
+    for tab, slots in sorted(tables.items()):
+        v = slots.get('poll')
+        if not v or v[0] == 'str':
+            continue
+        t = prog.resolve(v[0], v[1])
+        if t is None or not t.blocks:
+            continue
+        ws = _kernel_waits(prog, t)
+        if not ws:
+            raise AnalysisBroken('%s.poll (%s): no system call is handed a timeout derived from the deadline (the kernel wait)' % (tab, t.name))
+        waits[tab] = (t, ws)
+        for w in ws:
+            owner_of.setdefault(w, set()).add(tab)
+    if not waits:
+        raise AnalysisBroken('no poll method with a poll slot')
+    callers = {}
+    for f in sorted(prog.all_funcs(), key=lambda f: f.q):
+        if any(e['ev'] == 'call' and 'fnexpr' in e and h07.site_kind(f, e) == ('method', 'poll') for e in f.events()):
+            for r in h07.nearest_roots(prog, f):
+                callers[r.q] = r
+    if not callers:
+        raise AnalysisBroken('no call through the poll slot of the poll method')
+    bad = {tab: [] for tab in waits}
+    seen = set()
+    first = None
+    for q, r in sorted(callers.items()):
+        g = h07.inline(prog, r, expand_methods=True)
+        first = first or r
+
+        def is_wait(e):
+            return e['ev'] == 'call' and 'callee' in e and (e['loc'], e['callee']) in owner_of
+
+        def refresh(e):
+            # roles of the cached loop time and of its validity flag as C04's helpers discover them (the time value in
+            # memory that iv_time_get() fills; the integer member every reader of the clock sets to one constant, the
+            # "valid" value): robust against renaming / regrouping / flipped polarity of the flag
+            if h04.invalidates(e):
+                return True
+            if e['ev'] == 'call' and e.get('callee') == 'iv_time_get' and e.get('args'):
+                a = h07.strip_cast(e['args'][0])
+                return isinstance(a, dict) and a.get('k') == 'addr' and h04.is_clock(a.get('e'))
+            return False
+
+        def tabs_of(e):
+            """the poll method(s) whose slot function the (inlined) wait event lies in"""
+            k = (e['loc'], e['callee'])
+            inside = {tab for tab in owner_of[k] if any(c[2] == waits[tab][0].q for c in e.get('chain', []))}
+            return inside or owner_of[k]
+
+        def tr(e, S):
+            if is_wait(e):
+                return S | {(e['loc'], e['callee'], tab) for tab in tabs_of(e)}
+            if refresh(e):
+                return frozenset()
+            return S
+        _, ev_in = forward(g, frozenset(), tr, lambda a, b: a | b)
+        for b, blk in g.blocks.items():
+            for i, e in enumerate(blk.events):
+                S = ev_in.get((b, i))
+                if S is None:
+                    continue
+                if is_wait(e):
+                    seen.add((e['loc'], e['callee']))
+                if not S:
+                    continue
+                if e['ev'] == 'ret' and not e.get('chain'):
+                    for w in S:
+                        bad[w[2]].append((r, g, e, w))
+        S = ev_in.get((g.exit, 0))
+        if S and r.ret == 'void':
+            for w in S:
+                bad[w[2]].append((r, g, None, w))
+    for tab, (t, ws) in sorted(waits.items()):
+        if not (ws & seen):
+            raise AnalysisBroken('%s.poll: its kernel wait is not reached from any caller of the poll slot' % tab)
+        lst = bad[tab]
+        b0 = lst[0] if lst else None
+        ctx.ob('R-C07h', '%s:wake-up-invalidates-clock' % tab.replace('iv_fd_poll_method_', ''), not lst,
+               loc=(b0[2]['loc'] if b0 and b0[2] is not None else t.loc),
+               detail='after the kernel wait (%s) of %s the cached loop time is invalidated or re-read on every path before the caller '
+                      'of the poll slot returns%s'
+                      % ('/'.join(sorted({w[1] for w in ws})), t.name,
+                         '' if not lst else '; not so on a path from %s at %s to the return of %s'
+                         % (b0[3][1], b0[3][0].split('/')[-1], b0[0].name)), fn=t.q)
